@@ -92,7 +92,11 @@ def build_harness(ctx, prog, race=False):
             p = os.path.join(src, "go.mod")
             s = open(p).read().replace("=> /repo", "=> " + REPO)
             open(p, "w").write(s)
-    cmd = ["go", "build", "-tags", "verif"] + (["-race"] if race else []) + ["-o", out, "./" + prog]
+    cover = []
+    if os.environ.get("VERIF_COVERDIR"):
+        deps = subprocess.run(["go", "list", "-tags", "verif", "-deps", "./" + prog], cwd=src, env=goenv(), capture_output=True, text=True).stdout
+        cover = ["-cover", "-coverpkg=" + ",".join(l for l in deps.split() if l.startswith("github.com/makiuchi-d/gozxing") or l.startswith("verifharness"))]  # main must be instrumented too or nothing is written
+    cmd = ["go", "build", "-tags", "verif"] + (["-race"] if race else []) + cover + ["-o", out, "./" + prog]
     t = time.time()
     r = subprocess.run(cmd, cwd=src, env=goenv(), capture_output=True, text=True)
     if r.returncode != 0:
@@ -106,6 +110,8 @@ def vdrive(ctx, prog, args, stdin=None, timeout=1800, race=False, env=None):
     e = goenv()
     e["VERIF_SEED"] = str(ctx.seed)
     e["VERIF_TIER"] = ctx.tier
+    if os.environ.get("VERIF_COVERDIR"):    # statement coverage of the library under the drivers (bin/coverage), informational
+        e["GOCOVERDIR"] = os.environ["VERIF_COVERDIR"]
     if env:
         e.update(env)
     try:
